@@ -183,6 +183,20 @@ def generate(seed, run, tier):
             st["part"] = rq.choice(["data", "control"])
             st["k"] = rq.choice([1, 1, 2, 3])
         steps.append(st)
+    rc = stream_rng(seed, ID, run, "close")
+    if rc.random() < 0.012:
+        # the package, opened by file name, is closed while a stream over a large
+        # incompressible file (more than any read-ahead) is part-read, then read on
+        world.update(open="filename", defect=None, other=None, dcomp=rc.choice(["gz", "xz", "gz", "bz2"]),
+                     drop_package_before_drain=False)
+        big_ = {"name": names[0], "data": enc_bytes(b""),
+                "rand": [rc.randrange(1 << 30), 150000 + rc.randrange(350000)]}
+        world["files"] = [big_] + [f_ for f_ in files if f_["name"] != names[0]][:2]
+        n_ = rc.choice([1000, 5000, 40000, 150000])
+        steps = [{"op": "open_stream", "i": 0, "sp": rc.randrange(3), "how": "a"}]
+        steps += [{"op": "read_stream", "s": 0, "n": n_} for _ in range(rc.randrange(1, 4))]
+        steps += [{"op": "close_package"}]
+        steps += [{"op": "read_stream", "s": 0, "n": n_} for _ in range(rc.randrange(1, 4))]
     return {"world": world, "trace": steps}
 
 
@@ -413,6 +427,7 @@ def execute(case):
     if deb.version != b"2.0":
         raise Violation("version-differs", "open", {"got": deb.version})
     streams = []          # dicts(f, data, pos, part, reads)
+    closed = False
     others = []
     other_world = {"fields": [["Package", "other-pkg"], ["Version", "9.9"], ["Architecture", "all"]],
                    "scripts": {"postrm": enc_bytes(b"#!/bin/sh\nexit 0\n")},
@@ -598,14 +613,29 @@ def execute(case):
                     got = _call(lambda: sorted(x.rstrip("/") if x != "./" else "."
                                                for x in deb.control))
                 expect(si, op, got, want)
+            elif op == "close_package":
+                # what a stream handed out earlier does after this is not specified beyond
+                # "never bytes that were not packed": exact bytes, or an error
+                deb.close()
+                closed = True
+                part = "other"
+                out.probe("package_closed_while_stream_part_read")
             elif op == "read_stream":
                 if not streams:
                     continue
                 s = streams[st["s"] % len(streams)]
+                if s.get("dead"):
+                    continue
                 part = s["part"]
                 n = st["n"]
                 got = _call(s["f"].read, n)
                 want = s["data"][s["pos"]:s["pos"] + n]
+                if closed and got[0] == "exc":
+                    s["dead"] = True
+                    out.probe("stream_refused_after_close")
+                    continue
+                if closed and got == ("ok", want) and want:
+                    out.probe("stream_read_on_after_close")
                 if got != ("ok", want):
                     raise Violation("stream-read-differs-from-what-was-packed", op,
                                     {"step": si, "offset": s["pos"], "n": n,
@@ -640,7 +670,11 @@ def execute(case):
             out.probe("package_object_dropped_before_streams_drained")
         # drain every stream: the rest must be exactly the rest
         for k, s in enumerate(streams):
+            if s.get("dead"):
+                continue
             got = _call(s["f"].read)
+            if closed and got[0] == "exc":
+                continue
             if got != ("ok", s["data"][s["pos"]:]):
                 raise Violation("stream-read-differs-from-what-was-packed", "drain",
                                 {"stream": k, "offset": s["pos"]})
